@@ -356,6 +356,8 @@ func init() {
 	const yp = "github.com/dgraph-io/badger/v4/y."
 	natives[yp+"AssertTrue"] = func(br *bodyRun, st *State, fn *ssa.Function, av []ssa.Value, args []Val, rt types.Type, x ssa.CallInstruction) Val {
 		br.fc.oblige(st, args[0].(Scalar).T, br.prefix+br.fc.ordName("asserttrue", ""), "asserttrue", x.Pos(), "y.AssertTrue condition")
+		// the process exits when the condition is false: execution continues only when it holds
+		br.fc.assume(st, args[0].(Scalar).T)
 		return nil
 	}
 	natives[yp+"AssertTruef"] = natives[yp+"AssertTrue"]
